@@ -77,6 +77,32 @@ func Harness_C17_ResolveLongForm() {
 	verifrt.Assert(len(vms) == 1 && len(svcs) == 1 && vms[0].Controller() == did, "the resolved document carries the supplied key and service, controlled by the DID")
 }
 
+// Harness_C17_NonCanonicalBase64: an initial state whose text differs from the canonical unpadded base64url
+// encoding only in the unused low bits of its last character (it decodes to the same bytes) is rejected.
+func Harness_C17_NonCanonicalBase64() {
+	ns := "did:" + verifrt.AnyAtom("method")
+	h, err := New(ns)
+	if err != nil {
+		verifrt.Fail("handler construction failed")
+		return
+	}
+	// natively: vary the request until its canonical length leaves unused bits in the last character
+	var suffix, alt string
+	ok := false
+	c := gen.NewCreate("c", gen.SHA256, gen.ReplacePatch("c-rp"))
+	for i := 0; i < verifrt.NativeRetries(3) && !ok; i++ {
+		c.Suffix.Type = "ttt"[:i+1]
+		canon, cerr := canonicalizer.MarshalCanonical(c.Request)
+		verifrt.Assume(cerr == nil)
+		suffix = gen.ModelHash(c.Suffix, gen.SHA256)
+		alt, ok = verifrt.AltBase64(encoder.EncodeToString(canon))
+	}
+	verifrt.Assume(ok)
+	_, err = h.ResolveDocument(ns + ":" + suffix + ":" + alt)
+	verifrt.Reach("checked")
+	verifrt.Assert(err != nil, "an initial state that is not the exact unpadded base64url encoding is rejected")
+}
+
 // Harness_C17_ProcessCreate: processing a create request returns the same result as resolving its long-form DID;
 // a valid request of another type is answered with an error (C19: not a panic).
 func Harness_C17_ProcessCreate() {
